@@ -642,7 +642,9 @@ pub fn record(inp: &FInput, mask: &Option<Vec<bool>>, full_line: bool) -> (Optio
     }
     // numeric reciprocity at the property's own threshold (1e-9 of the box face scale): C03
     let thr = 1e-9 * scale_area;
-    let tl = 1e-9 * l + 4096.0 * f64::EPSILON * (inp.anchor.abs().max_element() + 2.0 * l);
+    // (+ the conditioning of near-parallel bisectors, see poly.rs: eps / s^2 for generators at relative distance s)
+    let tl = 1e-9 * l + 4096.0 * f64::EPSILON * (inp.anchor.abs().max_element() + 2.0 * l)
+        + f64::EPSILON / (inp.min_sep_rel() * inp.min_sep_rel()).max(1e-300) * l;
     for i in 0..n {
         let ci = match integ.get_cell_at(i) { Some(c) => c, None => continue };
         for f in ci.compute_face_integrals::<(), ProbeFace>(()) {
